@@ -965,6 +965,9 @@ def run_case(ctx, index):
                 r.random() < .3:
             lay = 'ids-partly-numbers'
             ctx.count('start_tables_with_ids_partly_given_as_numbers')
+        elif r.random() < .1:
+            lay = 'ids-object-dtype'
+            ctx.count('start_tables_with_object_dtype_ids')
         t = gen.apply_layout(ctx.biom, spec, lay, r)
     m = spec.copy()
     ever = {'observation': set(spec.obs_ids), 'sample': set(spec.samp_ids)}
